@@ -231,6 +231,13 @@ def generate(rng: random.Random, tier: str):
             yield c
             if c.kind.endswith("/compiled"):
                 yield deadend_ok_case(e, f"deadend-size{size}")
+    # dead ends behind valid-end states, loops and ranges over a non-generatable type
+    for _ in range(200 if quick else 3000):
+        e = rand_expr(rng, rng.randint(1, 3), rng.choice([["a", "r"], ["r", "c", "a"], ["text", "i"], ["text", "i", "text"]]))
+        c = expr_case(e, "deadend-random")
+        yield c
+        if c.kind.endswith("/compiled"):
+            yield deadend_ok_case(e, "deadend-random")
     # inline alphabet
     for size in range(1, 3 if quick else 4):
         for e in enum(size, ["text", "i"]):
